@@ -65,13 +65,14 @@ func genScript(r *rand.Rand, handler string, typ int, isHTTP bool, hasCID bool) 
 	default:
 		replies = []string{"ok", "oknil", "resource", "notfound", "err", "plainerr", "invparams", "invparamsmsg", "invquery", "methodnotfound", "unmarshalable", "panicmarshal"}
 	}
+	replies = append(replies, "errnomsg")
 	switch k := r.IntN(100); {
 	case k < 68:
 		sc = append(sc, "r:"+pick(r, replies...))
 	case k < 78:
 		// no reply at all
 	case k < 90:
-		sc = append(sc, "p:"+pick(r, "reserr", "err", "str", "int", "nil", "wraperr"))
+		sc = append(sc, "p:"+pick(r, "reserr", "err", "str", "int", "nil", "wraperr", "reserrnomsg"))
 	default:
 		sc = append(sc, "r:"+pick(r, replies...), pick(r, "r:ok", "r:notfound", "p:str", "p:reserr", "status", "t:50", "ev:late"))
 	}
